@@ -149,7 +149,7 @@ class ClipSim:
     properties = ['C08', 'C09']
 
     def budget(self, prop, tier):
-        return {'quick': {'runs': 1100, 'seconds': 55}, 'thorough': {'runs': 60000, 'seconds': 780}}[tier]
+        return {'quick': {'runs': 2400, 'seconds': 50}, 'thorough': {'runs': 60000, 'seconds': 780}}[tier]
 
     def rule(self, prop):
         return ('plans drawn from VERIF_SEED: world (every convention; coordinates as coordinates or plain variables; meshes with '
